@@ -266,11 +266,27 @@ def long_side_cases(draw, big=False):
     return g
 
 
+@st.composite
+def many_channel_cases(draw):
+    """channel (and batch) counts around 2^8: the third place where a narrow index type would wrap"""
+    a = draw(gen.axis_geom(kmax=2, smax=2, dmax=2, pmax=1, extra_max=1))
+    b = draw(gen.axis_geom(kmax=2, smax=2, dmax=2, pmax=1, extra_max=1))
+    many_c = draw(st.booleans())
+    big = draw(st.sampled_from([255, 256, 257, 300]))
+    g = {"N": 1 if many_c else big, "C": big if many_c else draw(st.integers(1, 2)), "H": a["L"], "W": b["L"],
+         "k": [a["k"], b["k"]], "s": [a["s"], b["s"]], "d": [a["d"], b["d"]], "p": [a["p"], b["p"]],
+         "spell": {}, "pad_value": draw(st.integers(-5, 5)), "dtype": draw(st.sampled_from(["float64", "float32"])),
+         "layout": "C", "pow2": 0, "x_seed": draw(st.integers(0, 10 ** 6))}
+    g["y"] = draw(hnp.arrays(np.int8, (48,), elements=st.integers(-9, 9), fill=st.nothing())).tolist()
+    return g
+
+
 def check_long_side(g, rec):
     n = g["N"] * g["C"] * g["H"] * g["W"]
     i = np.arange(n, dtype=np.int64)
     g = dict(g, x=(((i * 7 + g["x_seed"]) * 2654435761 >> 7) % 19 - 9).tolist())
-    rec.tag("side_near_2^16" if max(g["H"], g["W"]) > 1000 else "side_near_2^8")
+    rec.tag("side_near_2^16" if max(g["H"], g["W"]) > 1000 else ("side_near_2^8" if max(g["H"], g["W"]) > 100 else
+                                                                  ("channels_near_2^8" if g["C"] > 100 else "batch_near_2^8")))
     check_geom(g, rec)
     rec.nontrivial(True)
 
@@ -396,6 +412,7 @@ def subchecks():
     return [
         SubCheck("geom2d", check_geom, geom_cases, quick=300, thorough=700, shards_quick=8, shards_thorough=16),
         SubCheck("degenerate_views", check_geom, degenerate_view_cases, quick=300, thorough=3000, shards_quick=2, shards_thorough=4),
+        SubCheck("many_channels", check_long_side, many_channel_cases, quick=24, thorough=300, shards_quick=4, shards_thorough=8),
         SubCheck("long_side", check_long_side, long_side_cases, quick=48, thorough=600, shards_quick=4, shards_thorough=8),
         SubCheck("long_side_2^16", check_long_side, lambda: long_side_cases(big=True), quick=2, thorough=6, shards_quick=4,
                  shards_thorough=8),
